@@ -81,7 +81,7 @@ func genConc(out *bufio.Writer, rng *rand.Rand, rounds int) int {
 		[]byte("u equ 3\nv equ 4\nw equ 5\nk equ u+u*v-w+v\nm equ k+u-k+w\ni for m-7\nmov i, k\nrof\ndat m, k\n"),
 		[]byte("z9 equ z1+z1+z2+z2+z3\nz1 equ 1\nz2 equ 2\nz3 equ 3\ni for z9-7\ndat i, z9\nrof\n"))
 	// deep EQU chains (recursion depth of the resolver depends on the map order)
-	for _, depth := range []int{20, 34, 40, 60, 63, 64, 65, 70, 100, 130} {
+	for _, depth := range []int{20, 34, 40, 60, 63, 64, 65, 70, 100, 130, 200, 255, 256, 257, 300, 400} {
 		var sb strings.Builder
 		for d := depth; d >= 1; d-- {
 			if d == 1 {
@@ -313,6 +313,13 @@ func genConc(out *bufio.Writer, rng *rand.Rand, rounds int) int {
 		res := sim.Run()
 		got := fmt.Sprintf("%v c=%d core=%s q0=%v", res, sim.CycleCount(), coreDigest(sim), sim.GetWarrior(0).Queue())
 		fmt.Fprintf(out, "Y y%d alias mutate-after-add | %s ## %s\n", n, sha(ref), sha(got))
+		n++
+		// ... and not after a Reset either: the battle is replayed from the warrior as it was added
+		sim.Reset()
+		sim.SpawnWarrior(0, 3)
+		res = sim.Run()
+		got = fmt.Sprintf("%v c=%d core=%s q0=%v", res, sim.CycleCount(), coreDigest(sim), sim.GetWarrior(0).Queue())
+		fmt.Fprintf(out, "Y y%d alias mutate-after-add-then-reset | %s ## %s\n", n, sha(ref), sha(got))
 		n++
 		// one variable reused for two AddWarrior calls on one simulator, changed in between
 		{
